@@ -244,8 +244,14 @@ def str_strip(it, s, chars=None, left=True, right=True):
         if chars is None:
             return V.char_pred('isspace', code)
         return z3.Or(*[code == ord(c) for c in chars]) if chars else z3.BoolVal(False)
+    memo = ctx.ghost.setdefault('str_strip', {})
+    mk = (V.str_key(s), chars, left, right)
+    if mk in memo:
+        a, b = memo[mk]           # strip is a function: the same bounds for the same string
+        return V.sslice(ctx, s, a, b)
     a = ctx.fresh_int('stripa') if left else 0
     b = ctx.fresh_int('stripb') if right else n
+    memo[mk] = (a, b)
     ctx.assume(z3.And(0 <= zint(a), zint(a) <= zint(b), zint(b) <= zint(n)))
     if left:
         ctx.assume(forall_range(ctx, 0, a, lambda k: drop(zint(V.char_at(s, k))), 'sk'))
@@ -340,6 +346,12 @@ def call_str_method(it, name, s, args, kwargs, node):
     if name == 'rstrip':
         return str_strip(it, s, *args, left=False)
     if name == 'join':
+        if isinstance(args[0], V.GenericList):
+            if not is_str(args[0].elem):
+                it.raise_builtin('TypeError', 'wd:type[join of non-str]')
+            return it.fresh_str('joined')
+        if isinstance(args[0], V.SStr) and not isinstance(V.slen(args[0]), int):
+            return it.fresh_str('joined')       # sep.join(symbolic string): its characters separated by sep
         items = it.iter_values(args[0])
         out = ''
         for i, x in enumerate(items):
@@ -370,6 +382,18 @@ def call_str_method(it, name, s, args, kwargs, node):
         if isinstance(r, bytes):
             return Opaque('bytes')
         return from_py(r)
+    if name == 'replace' and len(args) >= 2 and is_str(args[0]) and is_str(args[1]):
+        t = it.equal_term(args[0], args[1])
+        if isinstance(t, bool) and t and not (isinstance(args[0], str) and args[0] == ''):
+            return s          # replacing a substring by itself
+    if name in ('lower', 'upper', 'replace', 'strip_', 'title', 'capitalize', 'casefold') and \
+            all(is_str(a) for a in args) and not kwargs:
+        # a function of its arguments: the same call on the same strings yields the same (otherwise unknown) string
+        memo = ctx.ghost.setdefault('str_fn', {})
+        mk = (name, V.str_key(s)) + tuple(V.str_key(a) for a in args)
+        if mk not in memo:
+            memo[mk] = it.fresh_str(name)
+        return memo[mk]
     if name in ('lower', 'upper', 'replace', 'title', 'capitalize', 'expandtabs', 'casefold',
                 'zfill', 'ljust', 'rjust', 'center', 'translate'):
         return it.fresh_str(name)
